@@ -16,6 +16,7 @@ inductive SemErr where
   | emptyAlt (head : String)
   | undefinedProd (sym : String)
   | undefinedRegDef (id user : String)
+  | reserved (name : String)          -- fix D15: a reserved spelling used as a production name or string literal
 deriving DecidableEq, Repr, Inhabited
 
 /-- the first element that occurs again later in the list -/
@@ -51,6 +52,22 @@ def synDefs (g : Grammar) : List String :=
 def undefinedUse (g : Grammar) (s : SSym) : Bool :=
   s.kind == .prodId && !(synDefs g).contains s.name && s.name != "empty" && s.name != "error"
 
+/-- the spellings of the two terminals every token map starts with (`empty` and `error` are NOT refused as string
+    literals: gocc's own grammar spec/gocc2.ebnf uses them; see known finding D16) -/
+def reservedNames : List String := ["INVALID", "␚"]
+
+/-- fix D15 (`consistent`): the first reserved-name clash of the syntax part, in the order the Go code looks:
+    per production: its name (`INVALID`); per body symbol: a string literal spelled like a pseudo symbol or like
+    ANY production name of the grammar (wherever that production is declared), `empty` next to other symbols -/
+def reservedUse (g : Grammar) : Option String :=
+  let heads := g.syn.map (·.head)
+  g.syn.findSome? fun p =>
+    if reservedNames.contains p.head then some p.head
+    else p.body.findSome? fun s =>
+      if s.kind == .strLit && (reservedNames.contains s.name || heads.contains s.name) then some s.name
+      else if s.kind != .strLit && s.name == "empty" && p.body.length > 1 then some "empty"
+      else none
+
 def regDefIds (g : Grammar) : List String := (g.lex.filter fun p => p.kind == .reg).map (·.id)
 
 def semCheck (g : Grammar) (lexImports : List String := []) : Except SemErr Unit := do
@@ -61,6 +78,9 @@ def semCheck (g : Grammar) (lexImports : List String := []) : Except SemErr Unit
   -- consistent (only when there is a syntax part)
   match g.syn.find? (fun p => p.body.isEmpty) with
   | some p => throw (.emptyAlt p.head)
+  | none => pure ()
+  match reservedUse g with
+  | some n => throw (.reserved n)
   | none => pure ()
   match (g.syn.flatMap (·.body)).find? (undefinedUse g) with
   | some s => throw (.undefinedProd s.name)
